@@ -55,7 +55,7 @@ Theorem C20_answered_request_was_called :
   forall (cf fuel : nat) (ds : list disc) (b0 : base) (q : Z),
     base_ok b0 -> violations b0 = 0%nat ->
     let r := client cf fuel ds (init_stack ds b0) [q] in
-    snd r = [0] -> exists x, In (LCall x q true) (blog (snd (fst r))).
+    snd r = [0] -> exists x res, In (LCall x q true res) (blog (snd (fst r))).
 Proof. exact answered_request_was_called. Qed.
 Print Assumptions C20_answered_request_was_called.
 
@@ -94,14 +94,27 @@ Theorem C20_readiness_answers_surface :
 Proof. exact poll_passes_through. Qed.
 Print Assumptions C20_readiness_answers_surface.
 
-(* anywhere: in a stack without a hedge layer (hedge fails only the attempt that met the error, by
-   design) the readiness errors returned by the wrapped service and the requests the client saw
-   failing with a readiness error -- at poll_ready (code 1) or inside the call, before a further
-   attempt of a retry / reconnect layer at any depth (code 2) -- are equinumerous: every such
-   error ends exactly one request as a readiness error, none is swallowed, none is made up. *)
+(* "none made up", EVERY stack: the requests the client saw failing with a readiness error (at
+   poll_ready: code 1, inside the call: code 2) never outnumber the readiness errors the wrapped
+   service returned. *)
+Theorem C20_readiness_errors_never_made_up :
+  forall (cf fuel : nat) (ds : list disc) (t : list lstate * base) (reqs : list Z),
+    let r := client cf fuel ds t reqs in
+    (nerrs (blog (snd t)) + count_if surfaced (snd r) <= nerrs (blog (snd (fst r))))%nat.
+Proof. exact readiness_errors_never_made_up. Qed.
+Print Assumptions C20_readiness_errors_never_made_up.
+
+(* "none swallowed": stacks with [exact_of ds = true], i.e. NO hedge layer (hedge fails only the attempt
+   that met the error, by design) and every retry / reconnect layer either configured with a predicate
+   that REFUSES readiness errors (the driver's retry_on(kind == TRANSIENT) and reconnect_predicate
+   "E kind=1": disciplines Retry _ false / Reconnect _ false) or, with the crate's DEFAULT predicate
+   (Retry _ true / Reconnect _ true: every error is retried), sitting above layers through which no
+   call can end with a readiness error. For them the readiness errors returned by the wrapped service
+   and the requests the client saw failing with one -- at poll_ready or inside the call, before a
+   further attempt at any depth -- are equinumerous: every such error ends exactly one request. *)
 Theorem C20_readiness_errors_surface_once :
   forall (cf fuel : nat) (ds : list disc) (t : list lstate * base) (reqs : list Z),
-    Forall no_hedge ds ->
+    exact_of ds = true ->
     let r := client cf fuel ds t reqs in
     nerrs (blog (snd (fst r))) = (nerrs (blog (snd t)) + count_if surfaced (snd r))%nat.
 Proof. exact readiness_errors_surface_once. Qed.
@@ -109,15 +122,35 @@ Print Assumptions C20_readiness_errors_surface_once.
 
 Theorem C20_readiness_error_ends_request :
   forall (cf fuel : nat) (ds : list disc) (b0 : base) (q : Z),
-    Forall no_hedge ds -> nerrs (blog b0) = 0%nat ->
+    exact_of ds = true -> nerrs (blog b0) = 0%nat ->
     let r := client cf fuel ds (init_stack ds b0) [q] in
     (exists x, In (LPoll x RErr) (blog (snd (fst r)))) -> snd r = [1] \/ snd r = [2].
 Proof. exact readiness_error_ends_request. Qed.
 Print Assumptions C20_readiness_error_ends_request.
 
+(* a single retrying layer between non-retrying layers is such a stack WHATEVER its predicate: the
+   layer's own failed readiness check before a further attempt ends the request with that error
+   (regressions R1 / R2 of the second review) *)
+Theorem C20_single_retrying_layer_surfaces_its_readiness_error :
+  forall (above : list disc) (k : nat) (dflt : bool) (below : list disc),
+    Forall plain_disc above -> Forall plain_disc below ->
+    exact_of (above ++ Retry k dflt :: below) = true /\ exact_of (above ++ Reconnect k dflt :: below) = true.
+Proof. exact single_retrying_layer_surfaces_its_readiness_error. Qed.
+Print Assumptions C20_single_retrying_layer_surfaces_its_readiness_error.
+
+(* with the crates' DEFAULT predicates the equality is legitimately false elsewhere: a default-predicate
+   retry ABOVE another retrying layer retries that layer's readiness error like any other call error
+   (its own protective condition is triggered; the Tower contract is kept). Witness. *)
+Theorem C20_default_predicate_swallows :
+  let ds := [Retry 1 true; Retry 1 false] in
+  let r := client 8 9 ds (init_stack ds (init_base_f [RReady; RErr] 1 0)) [1] in
+  snd r = [0] /\ nerrs (blog (snd (fst r))) = 1%nat /\ violations (snd (fst r)) = 0%nat /\ exact_of ds = false.
+Proof. exact default_predicate_swallows. Qed.
+Print Assumptions C20_default_predicate_swallows.
+
 Theorem C20_program_readiness_errors_surface_once :
   forall (cf fuel : nat) (ds : list disc) (b0 : base) (os : list cop),
-    Forall no_hedge ds -> nerrs (blog b0) = 0%nat ->
+    exact_of ds = true -> nerrs (blog b0) = 0%nat ->
     let r := run_cops (execp fuel ds) cf (init_stack ds b0, init_c) os in
     nerrs (blog (snd (fst (fst r)))) =
     (count_if is_one (snd r) + count_if is_two (outs (snd (fst r))))%nat.
@@ -128,15 +161,15 @@ Print Assumptions C20_program_readiness_errors_surface_once.
    scripts run_script executes: with the fuel run_protocol / run_program use (one more than the
    number of scripted answers) no poll loop gives up and no request hangs (code 9). *)
 Theorem C20_run_protocol_never_hangs :
-  forall (cf : nat) (ds : list disc) (orc : list rres) (reqs : list Z),
-    ~ In 9 (snd (client cf (S (length orc)) ds (init_stack ds (init_base orc)) reqs)).
+  forall (cf : nat) (ds : list disc) (orc : list rres) (kf : nat) (am : Z) (reqs : list Z),
+    ~ In 9 (snd (client cf (S (length orc)) ds (init_stack ds (init_base_f orc kf am)) reqs)).
 Proof. exact run_protocol_never_hangs. Qed.
 Print Assumptions C20_run_protocol_never_hangs.
 
 Theorem C20_run_program_never_hangs :
-  forall (cf : nat) (ds : list disc) (po : list (list rres)) (os : list cop),
+  forall (cf : nat) (ds : list disc) (po : list (list rres)) (kf : nat) (am : Z) (os : list cop),
     ~ In 9 (outs (snd (fst (run_cops (execp (S (length (concat po))) ds) cf
-                                     (init_stack ds (init_base_p po), init_c) os)))).
+                                     (init_stack ds (init_base_pf po kf am), init_c) os)))).
 Proof. exact run_program_never_hangs. Qed.
 Print Assumptions C20_run_program_never_hangs.
 
@@ -253,20 +286,22 @@ Proof. exact Transparent.run_transparent_spec. Qed.
 Print Assumptions C20_run_transparent_spec.
 
 (* ---- Listeners ------------------------------------------------------------------------------- *)
-(* [run_steps guarded ls steps cur acc] COMPUTES how a call path (events emitted, outcome fixed
-   when the inner call returns) ends, through the listener invocations: a panic escaping an
-   invocation ends the run with FPanic. With the invocations guarded as EventListeners::emit guards
-   them, whatever the listeners do the outcome is the one the call path fixes by itself ... *)
+(* A listener returns, panics, or panics with a payload whose destructor panics. [run_steps g ls steps
+   cur acc] COMPUTES how a call path (events emitted, outcome fixed when the inner call returns) ends,
+   through the listener invocations made under guard g: a panic escaping an invocation ends the run
+   with FPanic. GCatchDrop = EventListeners::emit as repaired by afefac0 and reconnect's callback helper
+   as repaired by 56b9388 (catch_unwind around the listener AND around the drop of the caught
+   payload). Whatever the listeners do the outcome is the one the call path fixes by itself ... *)
 Theorem C20_listeners_cannot_change_outcome :
   forall (ls : list listener) (steps : list lstep) (cur : final),
-    fst (run_steps true ls steps cur []) = final_of steps cur.
+    fst (run_steps GCatchDrop ls steps cur []) = final_of steps cur.
 Proof. exact listeners_cannot_change_outcome. Qed.
 Print Assumptions C20_listeners_cannot_change_outcome.
 
 (* ... every listener is handed every event whatever the others did with it ... *)
 Theorem C20_every_listener_gets_every_event :
   forall (ls : list listener) (steps : list lstep) (cur : final),
-    snd (run_steps true ls steps cur []) = deliveries_of ls steps /\
+    snd (run_steps GCatchDrop ls steps cur []) = deliveries_of ls steps /\
     (forall ev, In (SEmit ev) steps -> In (ev, map (fun l => l ev) ls) (deliveries_of ls steps)) /\
     (forall ev i l, nth_error ls i = Some l -> nth_error (map (fun l => l ev) ls) i = Some (l ev)).
 Proof. exact every_listener_gets_every_event. Qed.
@@ -276,26 +311,40 @@ Print Assumptions C20_every_listener_gets_every_event.
 Theorem C20_per_kind_counts :
   forall (ls : list listener) (steps : list lstep) (cur : final) (i : nat) (l : listener) (ev : Z),
     nth_error ls i = Some l -> (forall e, l e <> Skipped) ->
-    count_kind i ev (snd (run_steps true ls steps cur [])) = Z.of_nat (emits ev steps).
+    count_kind i ev (snd (run_steps GCatchDrop ls steps cur [])) = Z.of_nat (emits ev steps).
 Proof. exact per_kind_counts. Qed.
 Print Assumptions C20_per_kind_counts.
 
-(* The clause is FALSE for bare callback invocations (reconnect's on_state_change / on_reconnect
-   before fix 484f229): the witness is the defect that was found and repaired in /repo. *)
+(* The clause is FALSE under the two weaker guards, which are the two defects found and repaired in
+   /repo: bare callback invocations (reconnect before 484f229) ... *)
 Theorem C20_bare_callbacks_refuted :
   let ls := [(fun _ => Panics); (fun _ => Returns)] in
   let steps := [SOut 0 70; SEmit 0] in
-  fst (run_steps false ls steps (FOut 0 0) []) = FPanic /\
+  fst (run_steps GBare ls steps (FOut 0 0) []) = FPanic /\
   final_of steps (FOut 0 0) = FOut 0 70 /\
-  count_kind 1 0 (snd (run_steps false ls steps (FOut 0 0) [])) = 0 /\
-  count_kind 1 0 (snd (run_steps true ls steps (FOut 0 0) [])) = 1.
+  count_kind 1 0 (snd (run_steps GBare ls steps (FOut 0 0) [])) = 0 /\
+  count_kind 1 0 (snd (run_steps GCatchDrop ls steps (FOut 0 0) [])) = 1.
 Proof. exact bare_callbacks_refuted. Qed.
 Print Assumptions C20_bare_callbacks_refuted.
 
+(* ... and a guard that catches the panic but drops its payload outside (EventListeners::emit before
+   afefac0, reconnect's callback sites before 56b9388): an ordinary panic is contained, a payload whose
+   destructor panics is not, and the listener behind it is starved. *)
+Theorem C20_payload_dropped_outside_refuted :
+  let steps := [SEmit 0; SOut 0 70] in
+  fst (run_steps GCatch [(fun _ => Panics); (fun _ => Returns)] steps (FOut 0 0) []) = FOut 0 70 /\
+  fst (run_steps GCatch [(fun _ => Bombs); (fun _ => Returns)] steps (FOut 0 0) []) = FPanic /\
+  count_kind 1 0 (snd (run_steps GCatch [(fun _ => Bombs); (fun _ => Returns)] steps (FOut 0 0) [])) = 0 /\
+  fst (run_steps GCatchDrop [(fun _ => Bombs); (fun _ => Returns)] steps (FOut 0 0) []) = FOut 0 70 /\
+  count_kind 1 0 (snd (run_steps GCatchDrop [(fun _ => Bombs); (fun _ => Returns)] steps (FOut 0 0) [])) = 1.
+Proof. exact payload_dropped_outside_refuted. Qed.
+Print Assumptions C20_payload_dropped_outside_refuted.
+
 (* Trace level, mode 4 (listeners on every layer of a stack, what run_script executes): the whole
-   trace -- outcomes and absolute per-layer / per-listener / per-event-kind counts -- of EVERY script
-   is the trace of the same script with no panicking listener, and its outcome part is the
-   transparent one. *)
+   trace -- outcomes, absolute per-layer / per-listener / per-event-kind counts, the counts of the
+   reference run -- of EVERY script and EVERY panic mask (ordinary payloads: bits 0..3, payloads whose
+   Drop panics: bits 4..7) is the trace of the same script with no panicking listener, and its outcome
+   part is the transparent one. *)
 Theorem C20_l4_trace_mask_independent :
   forall (ids : list Z) (nl : nat) (mask : Z) (reqs : list (Z * Z * Z)),
     LayerSem.l4_trace ids nl mask reqs = LayerSem.l4_trace ids nl 0 reqs.
